@@ -344,3 +344,5 @@ def r5_use_polarity(ctx, rep, R='C08.R5'):
                           'a layer is removed under %s' % [(norm(e), p) for e, p in acc],
                           key='filter:pop', func=ff.qualname, where=ctx.where(ff, c))
     rep.floor(R, n, 3, 'predicate use sites')
+    from . import c14
+    c14.tested_name_is_imported_name(ctx, rep, R)
